@@ -21,6 +21,19 @@ impl CharRefTokenizer {
                 name: match self.name_buf_opt { Some(t) => t@, None => Seq::<char>::empty() } }
     }
     pub closed spec fn in_attr(&self) -> bool { self.is_consumed_in_attribute }
+    /// characters held that may still be pushed back (termination measure)
+    pub closed spec fn kret(&self) -> int {
+        match self.state {
+            CrState::Begin => 0,
+            CrState::Octothorpe => 1,
+            CrState::Numeric(_) | CrState::NumericSemicolon => 1 + (if self.hex_marker is Some { 1int } else { 0int }),
+            CrState::Named | CrState::BogusName => match self.name_buf_opt { Some(t) => t@.len() as int, None => 0 },
+        }
+    }
+    /// steps that do not consume move down this order
+    pub closed spec fn crrank(&self) -> int {
+        match self.state { CrState::Begin => 3, CrState::Octothorpe => 2, CrState::Numeric(_) => 1, _ => 0 }
+    }
     /// representation invariant of the character-reference tokenizer
     #[verifier::opaque]
     pub closed spec fn wf(&self) -> bool {
@@ -54,6 +67,14 @@ pub open spec fn comment_free(s: State) -> bool {
     !(s is BogusComment || s is CommentStart || s is CommentStartDash || s is Comment || s is CommentLessThanSign
       || s is CommentLessThanSignBang || s is CommentLessThanSignBangDash || s is CommentLessThanSignBangDashDash
       || s is CommentEndDash || s is CommentEnd || s is CommentEndBang)
+}
+/// height in the graph of "reconsume in state X" edges: a state that is entered by re-consuming and never re-consumes
+/// itself is at 0
+pub open spec fn rrank(s: State) -> int {
+    if s is CommentLessThanSignBangDashDash { 2 }
+    else if s is Data || s is RawData || s is BogusComment || s is AttributeValue || s is BeforeAttributeName || s is Comment
+        || s is CommentEndDash || s is BeforeDoctypeName || s is BogusDoctype || s is CdataSection || s is Plaintext { 0 }
+    else { 1 }
 }
 pub open spec fn cr_host_state(s: State) -> bool {
     s == State::Data || s == State::RawData(RawKind::Rcdata) || s is AttributeValue
@@ -138,6 +159,23 @@ impl Tokenizer {
         (if self.reconsume.v { 1int } else { 0int }) + q.view().len()
             + (if self.state.v is MarkupDeclarationOpen || self.state.v is AfterDoctypeName { self.temp_buf.v@.len() as int } else { 0int })
     }
+    // ---- termination measure of the run() loop: lexicographic (phi, fuel, third) ----
+    /// twice the characters still to be delivered, plus what a character reference in progress may push back
+    pub closed spec fn phi(&self, q: &BufferQueue) -> int {
+        2 * self.fuel(q) + (match self.char_ref_tokenizer.v { Some(t) => 2 * t.kret() + 1, None => 0 })
+    }
+    /// steps that do not consume: a re-consumed character moves down the re-consume order; a failed look-ahead leaves
+    /// the markup-declaration-open state; the character-reference tokenizer moves down its own order
+    pub closed spec fn third(&self) -> int {
+        match self.char_ref_tokenizer.v {
+            Some(t) => t.crrank(),
+            None => if self.reconsume.v { rrank(self.state.v) } else if self.state.v is MarkupDeclarationOpen { 4 } else { 3 },
+        }
+    }
+    /// strictly smaller measure
+    pub closed spec fn mlt(&self, q: &BufferQueue, o: &Tokenizer, oq: &BufferQueue) -> bool {
+        self.phi(q) < o.phi(oq) || (self.phi(q) == o.phi(oq) && (self.fuel(q) < o.fuel(oq) || (self.fuel(q) == o.fuel(oq) && self.third() < o.third())))
+    }
     pub closed spec fn is_at_eof(&self) -> bool { self.at_eof.v }
     /// fields outside the abstraction that steps may change
     pub closed spec fn aux(&self) -> Aux {
@@ -155,6 +193,27 @@ impl Tokenizer {
 
 pub struct Aux { pub cur: char, pub ig: bool }
 
+/// How one call of step() makes progress, in terms that are cheap for the proofs of the state arms:
+///  * a character reference is in progress: its own measure (unit u_hcr);
+///  * something was consumed (possibly starting a character reference with the '&');
+///  * the consumed character is re-consumed in a state further down the re-consume order;
+///  * a failed look-ahead leaves the markup-declaration-open state.
+pub open spec fn step_progress(t1: &Tokenizer, q1: &BufferQueue, t0: &Tokenizer, q0: &BufferQueue) -> bool {
+    if t0.abs().cr is Some { t1.mlt(q1, t0, q0) }
+    else {
+        ||| (t1.fuel(q1) < t0.fuel(q0) && (t1.abs().cr is None || t1.abs().cr == Some(cr_new())))
+        ||| (t1.fuel(q1) == t0.fuel(q0) && t1.abs().cr is None && t1.abs().recons
+             && (t0.abs().recons ==> rrank(t1.abs().state) < rrank(t0.abs().state)))
+        ||| (t1.fuel(q1) == t0.fuel(q0) && t1.abs().cr is None && !t1.abs().recons && !t0.abs().recons
+             && t0.abs().state is MarkupDeclarationOpen && !(t1.abs().state is MarkupDeclarationOpen))
+    }
+}
+/// progress makes the lexicographic termination measure (phi, fuel, third) of the driving loop strictly smaller
+pub proof fn lemma_progress_decreases(t0: &Tokenizer, q0: &BufferQueue)
+    ensures forall|t1: &Tokenizer, q1: &BufferQueue| #[trigger] step_progress(t1, q1, t0, q0) ==>
+        t1.phi(q1) < t0.phi(q0) || (t1.phi(q1) == t0.phi(q0) && (t1.fuel(q1) < t0.fuel(q0) || (t1.fuel(q1) == t0.fuel(q0) && t1.third() < t0.third()))),
+{
+}
 // ---- token sink model: a ghost log of the flattened tokens; replies are an arbitrary function of it ----
 pub struct Sink { pub out: Ghost<Seq<Out>> }
 /// the sink's ghost log after receiving token `t` on line `line` (character tokens flattened,
